@@ -42,7 +42,7 @@ TIESKEL = ["JanetModel.Peg.TieSkel." + t for t in (
     "rule_if", "rule_ifnot", "rule_not", "rule_drop", "rule_only_tags", "rule_sub", "rule_accumulate", "rule_capture",
     "rule_position", "rule_constant", "rule_group", "rule_nth", "rule_error", "rule_between", "rule_to_thru", "rule_til", "rule_choice", "rule_sequence", "rule_lenprefix", "rule_split", "rule_replace", "rule_matchtime", "rule_nchar", "rule_notnchar", "rule_line",
     "rule_column", "rule_argument", "rule_literal", "rule_range", "rule_set", "rule_look", "rule_capture_num", "rule_gettag",
-    "rule_backmatch")]
+    "rule_backmatch", "rule_unref")]
 ENTRIES = ("match", "find", "findall", "replace", "replaceall")
 
 
